@@ -67,7 +67,7 @@ h_loop_nowait(int n)
 }
 
 /* lifetimes of the children by spawn index, the last one goes for all later ones */
-static double lives[HX_MAXPROC];
+static double lives[HX_MAXLIVES];
 static size_t nlives;
 
 static double
@@ -79,12 +79,17 @@ h_exit_time(size_t idx)
 	return l < 0 ? 1e300 : hx_procs[idx].t + l;
 }
 
+static size_t first_alive;
+
 static int
 h_reap_due(void)
 {
 /* children whose time has come exit now (SIGCHLD) */
 	int n = 0;
-	for (size_t i = 0; i < hx_nprocs; i++) {
+	while (first_alive < hx_nprocs && !hx_procs[first_alive].alive) {
+		first_alive++;
+	}
+	for (size_t i = first_alive; i < hx_nprocs; i++) {
 		if (hx_procs[i].alive && h_exit_time(i) <= hx_now + 1e-9) {
 			hx_log("EXIT %zu %d %.6f\n", i, (int)hx_procs[i].pid, hx_now);
 			hx_queue_exit(i, 0);
@@ -101,7 +106,7 @@ static double
 h_next_exit(void)
 {
 	double t = 1e300;
-	for (size_t i = 0; i < hx_nprocs; i++) {
+	for (size_t i = first_alive; i < hx_nprocs; i++) {
 		if (hx_procs[i].alive && h_exit_time(i) < t) {
 			t = h_exit_time(i);
 		}
@@ -278,7 +283,7 @@ h_script(char *script)
 			}
 		} else if (!strcmp(cmd, "lives")) {
 			nlives = 0;
-			while (*p && nlives < HX_MAXPROC) {
+			while (*p && nlives < HX_MAXLIVES) {
 				lives[nlives++] = strtod(p, &p);
 				while (*p == ' ') p++;
 			}
